@@ -15,6 +15,7 @@ import (
 	"os/exec"
 	"path/filepath"
 	"runtime"
+	"strings"
 	"sync"
 	"time"
 
@@ -273,7 +274,11 @@ func runReplayCase(c *verdict.Ctx, idx int, tmp string) {
 					// with skip_timeout_commit the vote that completes the commit of h-1 also moves the node into
 					// round 0 of h; that vote sits before the end-of-height marker and is not replayed
 					key = "replay-step-stays-newheight-after-skip-timeout-commit"
-				case equivocationSeen(nd, live.Height) && !containsField(d, "height", "round", "step", "proposal:", "proposal_block"):
+				case equivocationSeen(nd, live.Height) && (!containsField(d, "height", "round", "step", "proposal:", "proposal_block") ||
+					(lostClaimedMajority(live.Votes, replayed.Votes) && !containsField(d, "height", "proposal:", "proposal_block"))):
+					// (second form: a polka that existed live only through such a vote is missing after replay, and
+					// what hangs on it differs too - a proposal whose POL round it was stays incomplete, so the
+					// replayed node is still waiting in an earlier step and has not locked)
 					// votes admitted only because a peer claimed a 2/3 majority (SetPeerMaj23 is not written to the WAL)
 					// are refused as conflicting on replay: vote sets / polka-derived fields differ
 					key = "replay-loses-conflicting-votes-admitted-through-unlogged-maj23-claim"
@@ -287,6 +292,16 @@ func runReplayCase(c *verdict.Ctx, idx int, tmp string) {
 			c.Sample(map[string]interface{}{"stream": "replay", "case": idx, "point": p, "live_state": live})
 		}
 	}
+}
+
+// lostClaimedMajority reports whether some vote set had a 2/3 majority live and has none after replay.
+func lostClaimedMajority(live, replayed []string) bool {
+	for i := range live {
+		if i < len(replayed) && live[i] != replayed[i] && strings.Contains(live[i], "maj23=true") && strings.Contains(replayed[i], "maj23=false") {
+			return true
+		}
+	}
+	return false
 }
 
 // equivocationSeen reports whether two different votes of one validator for the same
